@@ -75,9 +75,11 @@ class RUSHScheduler(TransferLearningMixin, HyperbandScheduler):
         ]
         if custom_rush_points is not None:
             threshold_candidates += custom_rush_points
-            threshold_candidates = [
-                dict(s) for s in set(frozenset(p.items()) for p in threshold_candidates)
-            ]
+            # Remove duplicates, keeping the order (which must not depend on
+            # hash randomisation)
+            threshold_candidates = list(
+                {frozenset(p.items()): p for p in threshold_candidates}.values()
+            )
         num_threshold_candidates = len(threshold_candidates)
         if points_to_evaluate is not None:
             points_to_evaluate = threshold_candidates + [
